@@ -19,6 +19,7 @@ import WuffsVerif.Proof.Flate.Canonical3
 import WuffsVerif.Proof.Flate.Total5
 import WuffsVerif.Proof.Flate.Single
 import WuffsVerif.Proof.Flate.Walk2
+import WuffsVerif.Proof.Flate.FixedCut2
 
 namespace WuffsVerif.Props.C16
 open WuffsVerif.Flate WuffsVerif.Flate.Cut WuffsVerif.Flate.Spec
@@ -373,5 +374,50 @@ theorem huffman_walk_tracks_spec (hl hd : Spec.Huff) (minL minD lo : Nat) (ll dl
     (hf : 8 * c.bits.bytes.size + 1 ≤ fuelC + c.bits.pos) :
     Tracks hl hd minL minD c cp c.decodedLen out pE outE (Cutter.huffLoop fuelC c cp c.decodedLen) :=
   Cut.huffLoop_tracks hl hd minL minD lo ll dl fuelS fuelC c cp c.decodedLen out pE outE hc ctx rfl hspec hd0 hD hf
+
+/-- **The surgery of `doHuffman`** (replay): a run of tokens of `s` from `(p, out)` to the token
+boundary `(q, o)`, followed — in a buffer `s'` that has the same bits in `[p, q)` — by an end-of-block
+token at `q`, is a complete Huffman block of `s'` that decodes to `o`.  (`hminD`: every distance code is
+at least `minD` bits long; `hsz`: `minL` bits are left at `q`.)  This is what makes the cut stream valid:
+`writeEndCode` writes the end-of-block code at the checkpoint and nothing before it changes. -/
+theorem huffman_surgery (hl hd : Spec.Huff) (minL minD lo : Nat) (s s' : Bytes)
+    (hminD : ∀ q dv p2, Spec.decodeSym hd s q minD = .sym dv p2 → q + minD ≤ p2)
+    {p q q' : Nat} {out o : Bytes} (h : Reach hl hd minL minD s p out q o)
+    (hag : ∀ i, p ≤ i → i < q → Spec.bitAt s' i = Spec.bitAt s i) (hsz : q + minL ≤ 8 * s'.size)
+    (heob : Spec.huffTok hl hd minL minD s' q o.size = .eob q') (fuel : Nat) (hf : q - p < fuel) :
+    Spec.huffBlock hl hd minL minD s' none lo fuel p out = .next q' o :=
+  Cut.replay_eob hl hd minL minD lo s s' hminD h hag hsz heob fuel hf
+
+/-- `writeEndCode` writes exactly the `j` bits of the end-of-block code, most significant bit first, at
+the cursor, and changes no other bit of the buffer. -/
+theorem writeEndCode_bits (ecb j : Nat) (b b' : Bitstream)
+    (h : Cutter.writeEndCodeLoop ecb j b = .ok b') (h1 : b.nBits ≤ 8 * b.index) (h8 : b.nBits ≤ 8)
+    (hi : b.index ≤ b.bytes.size) :
+    ∀ i, Spec.bitAt b'.bytes i =
+      if 8 * b.index - b.nBits ≤ i ∧ i < 8 * b.index - b.nBits + j then
+        (ecb.testBit (j - 1 - (i - (8 * b.index - b.nBits)))).toNat
+      else Spec.bitAt b.bytes i :=
+  (Cut.writeEndCodeLoop_bits ecb j b b' h h1 h8 hi).2.2.2.2
+
+/-- **cut_prefix for a stream that is one final fixed-Huffman block** (`_partial`: several blocks,
+dynamic headers and stored blocks behind Huffman blocks are missing): for every such stream `s` — the
+header bits say "final, fixed Huffman" (`h0`, `h12`) and the spec decoder maps it to `T` — every limit
+and with or without a writer, a successful `Cut` yields a complete DEFLATE stream in the first
+`encodedLen` bytes of the buffer that decodes to exactly the first `decodedLen` bytes of `T`, which is
+also what the writer receives.  The proof covers the three ways out of `cut`: the whole block fits
+(padding bits cleared), the block is cut at a symbol boundary (end-of-block code written at the
+checkpoint, final bit patched, padding cleared), or `cutSingleBlock` takes over. -/
+theorem cut_prefix_fixed_block_partial (w : Bool) (s T : Bytes) (n0 : Nat) (limit : Int) (r : CutResult)
+    (hs : Spec.inflate s = some (T, n0)) (h0 : Spec.bitAt s 0 = 1) (h12 : Spec.bitsLE s 1 2 = 1)
+    (hT : T.size < 2147483648) (h : Cut.Cut w s limit = .ok r) :
+    Spec.inflate (r.encoded.extract 0 r.encodedLen) = some (T.extract 0 r.decodedLen, r.encodedLen) ∧
+    r.decodedLen ≤ T.size ∧ (w = true → r.written = T.extract 0 r.decodedLen) :=
+  Cut.Cut_fixed_block w s T n0 limit r hs h0 h12 hT h
+
+/-- non-vacuity: `4b 04 00` (the letter "a" as one final fixed-Huffman block) meets the hypotheses. -/
+example : Spec.bitAt #[0x4b, 0x04, 0x00] 0 = 1 ∧ Spec.bitsLE #[0x4b, 0x04, 0x00] 1 2 = 1 := by decide
+
+set_option maxRecDepth 100000 in
+example : Spec.inflate #[0x4b, 0x04, 0x00] = some (#[0x61], 3) := by decide +kernel
 
 end WuffsVerif.Props.C16
